@@ -256,9 +256,16 @@ def shrink(prop, P, case, check, kind, budget_s=40):
 
 def case_json(c):
     out = {"name": c["name"]}
-    for k in ("style", "wf", "note"):
-        if c.get(k) is not None:
-            out[k] = c[k]
+    # everything the oracles read from a case (labels, the abstract document, the malformed member's extent, ...) goes
+    # into the replay file, so that a replay judges the input exactly as the run did
+    for k, v in c.items():
+        if k in ("name", "files", "ops") or k.startswith("_") or v is None:
+            continue
+        try:
+            json.dumps(v)
+        except (TypeError, ValueError):
+            continue
+        out[k] = v
     if c.get("files"):
         out["files"] = [[fid, text] for fid, text in c["files"]]
     if c.get("ops"):
@@ -326,6 +333,9 @@ def main(argv):
             c["files"] = [(a, b) for a, b in cj["files"]]
         if "ops" in cj:
             c["ops"] = [tuple(o) for o in cj["ops"]]
+        for k, v in cj.items():
+            if k not in ("name", "files", "ops"):
+                c[k] = v
         cases = [c]
     else:
         cases = load_corpus(prop) + P["gen"](rng, tier)
